@@ -252,13 +252,13 @@ class Ctx:
 
     def int(self, name, lo, hi):
         """A Python int in [lo, hi] (inclusive)."""
+        if lo == hi:
+            return lo
         if self.mode == 'conc':
             v = builtins.int(self._val(name))
             if not lo <= v <= hi:
                 raise PathAbort()
             return v
-        if lo == hi:
-            return lo
         assert -(1 << (self.W - 1)) <= lo and hi < (1 << (self.W - 1)), \
             'domain does not fit width %d' % self.W
         e = z3.BitVec(name, self.W)
